@@ -31,9 +31,9 @@ LEVEL_TEXT = ("for generated BASE trees and deltas related as each law requires,
 RULE = ("case = BASE tree (seed skeleton + 0-6 random ops) + law + deltas of 1-6 model-legal ops (add/edit/chmod/rename/remove/unversion/kind change/"
         "symlink/delete-on-disk) + format (2a / git) + history shape (plain / criss-cross) + THIS committed or not; every merger run is one evaluation; "
         "non-trivial = the law's delta(s) applied at least one op; distinct = (law, format, shape, merger, op-kind sequences, resulting tree hash)")
-CASES = {"quick": 176, "thorough": 2400}
+CASES = {"quick": 176, "thorough": 4800}
 BUDGET_S = {"quick": 35, "thorough": 700}
-MIN_EVALS = {"quick": 120, "thorough": 1500}
+MIN_EVALS = {"quick": 120, "thorough": 3000}
 FLOORS = {"law:other=base": 20, "law:this=base": 20, "law:identical": 15, "law:disjoint": 20, "oracle_tree": 100, "oracle_disk": 100,
           "oracle_conflicts": 100, "C18live_law_S_three_way": 200, "C18live_law_S_lca": 200, "live_call:three_way": 150, "live_call:lca_multi_way": 50}
 ASSUMPTIONS = [
